@@ -183,11 +183,14 @@ def memMap (net : Net) (ops : List OpRow) (st : Array (Option Nat)) (lev : LevSt
     | none => pure ()
   for (n, i) in sn.zipIdx do
     let nd := net.node n
-    if nd.ins.length > 0 then
-      match nd.inPin 0 with
-      | some l => s := { s with locs := s.locs.setIfInBounds (ix.ppo + i) (s.locs.getD l (-1)),
-                                caps := s.caps.setIfInBounds (ix.ppo + i) (s.caps.getD l 0) }
-      | none => pure ()
+    match nd.inPin 0 with
+    | some l => s := { s with locs := s.locs.setIfInBounds (ix.ppo + i) (s.locs.getD l (-1)),
+                              caps := s.caps.setIfInBounds (ix.ppo + i) (s.caps.getD l 0) }
+    | none =>
+      -- a flip-flop or latch without data connection captures the constant-0 slot
+      if net.io.length ≤ i then
+        s := { s with locs := s.locs.setIfInBounds (ix.ppo + i) (s.locs.getD ix.zero (-1)),
+                      caps := s.caps.setIfInBounds (ix.ppo + i) (s.caps.getD ix.zero 0) }
   return s
 
 end KV
